@@ -347,6 +347,13 @@ func (p *untypedParamBinder) setFieldValue(target reflect.Value, defaultValue in
 		data = text
 	}
 
+	if !hasKey && data == "" && defaultValue == nil && target.CanSet() && reflect.PtrTo(target.Type()).Implements(textUnmarshalType) {
+		// the request does not carry the parameter and nothing is declared to stand for it: the zero value
+		// (not every TextUnmarshaler takes the empty text: strfmt.Duration refuses it)
+		target.Set(reflect.Zero(target.Type()))
+		return nil
+	}
+
 	if tpe != "byte" { // base64 is decoded below: both the standard and the URL-safe alphabets are accepted
 		ok, err := p.tryUnmarshaler(target, defaultValue, data)
 		if err != nil {
